@@ -19,7 +19,9 @@ EVT_LEAVES = {
     "i": ("int", 13), "f": ("float", 14), "d": ("double", 15), "b": ("bool", 16),
     "i2": ("int", 17), "f2": ("float", 18), "d2": ("double", 19), "b2": ("bool", 20),
 }
-CNT_SLOTS = {"J1": 11, "J2": 12}
+CNT_SLOTS = {"J1": 11, "J2": 12, "J": 10}
+# Sum() over the jets of bank "J" of an accessor, used as an operand of an event-level expression
+SUM_SLOTS = {"i": 41, "f": 42, "d": 43}
 METHODS = [("i", "int"), ("f", "float"), ("d", "double"), ("b", "bool"), ("i2", "int"), ("f2", "float"), ("d2", "double"), ("b2", "bool")]
 
 KINDS = ["intLit", "intCount", "float", "double", "bool"]
@@ -41,7 +43,13 @@ def leaf(level: str, name: str) -> Dict[str, Any]:
 
 def count_leaf(bank: str) -> Dict[str, Any]:
     k = list(CNT_SLOTS).index(bank)
-    return {"leaf": ["int", f"cnt{k}", CNT_SLOTS[bank]], "_src": f'e.Jets("{bank}").Count()', "_count": bank}
+    return {"leaf": ["int", f"cnt{k}", CNT_SLOTS[bank]], "_src": f'e.Jets("{bank}").Count()', "_count": bank, "_agg": ["Count", bank]}
+
+
+def sum_leaf(k: str) -> Dict[str, Any]:
+    """`e.Jets("J").Select(lambda j: j.k()).Sum()` as an operand: an accumulator of k's type (theorem sum_correct)"""
+    ty = JET_LEAVES[k][0]
+    return {"leaf": [ty, f"sum_{k}", SUM_SLOTS[k]], "_src": f'e.Jets("J").Select(lambda j: j.{k}()).Sum()', "_agg": ["Sum", k]}
 
 
 def acc_leaf() -> Dict[str, Any]:
@@ -142,6 +150,32 @@ def banks_of(e: Any) -> List[str]:
     return out
 
 
+def aggs_of(e: Any) -> List[List[str]]:
+    """the aggregate operands (Count of a bank / Sum of an accessor) in evaluation order"""
+    out: List[List[str]] = []
+    if isinstance(e, dict):
+        if "_agg" in e:
+            out.append(list(e["_agg"]))
+            return out
+        if "_count" in e:  # entries written before aggregate operands were generalised
+            out.append(["Count", e["_count"]])
+            return out
+        for k, v in e.items():
+            if not k.startswith("_"):
+                out += aggs_of(v)
+    elif isinstance(e, list):
+        for v in e:
+            out += aggs_of(v)
+    return out
+
+
+def agg_canon(a: List[str]) -> Tuple[str, str]:
+    """canonical variable name and expected declared type of an aggregate operand"""
+    if a[0] == "Count":
+        return f"cnt{list(CNT_SLOTS).index(a[1])}", "int"
+    return f"sum_{a[1]}", JET_LEAVES[a[1]][0]
+
+
 def ops_of(e: Any) -> List[str]:
     out: List[str] = []
     if isinstance(e, dict):
@@ -209,7 +243,33 @@ def form_src(form: Dict[str, Any], level: str) -> str:
     return f"lambda e: {body}"
 
 
+def row_src(cols: List[Dict[str, Any]]) -> str:
+    """one query, several columns: `lambda e: {'c0': …, 'c1': …}` (event level)"""
+    return "lambda e: {" + ", ".join(f"'c{k}': {src(c['e'])}" for k, c in enumerate(cols)) + "}"
+
+
+def row_forms(exprs_: List[Dict[str, Any]]) -> List[Dict[str, Any]]:
+    """the columns of one multi-column event-level query, each a plain form that knows its row"""
+    import copy
+
+    plain = [form_plain(e) for e in exprs_]
+    q = row_src(plain)
+    out = []
+    for k, f in enumerate(plain):
+        g = dict(f)
+        g["_rowquery"], g["_col"], g["_rowforms"] = q, k, copy.deepcopy(plain)
+        out.append(g)
+    return out
+
+
+def query_src(form: Dict[str, Any], level: str) -> str:
+    """the query the translator is given (a column of a multi-column row carries the row's query)"""
+    return form["_rowquery"] if "_rowquery" in form else form_src(form, level)
+
+
 def form_key(form: Dict[str, Any], level: str) -> str:
+    if "_rowquery" in form:
+        return f"{level}:{form['_rowquery']}#c{form['_col']}"
     return f"{level}:{form_src(form, level)}"
 
 
@@ -250,6 +310,8 @@ def random_expr(rng, level: str, d: int, allow_defect: bool = False, no_f32_inex
     """Type-directed random scalar expression of depth ≤ d over the property's operators."""
 
     def term(right: bool):
+        if level == "evt" and rng.random() < 0.2:
+            return rng.choice([sum_leaf("i"), sum_leaf("f"), sum_leaf("d"), count_leaf("J")])
         k = rng.choice(["intLit", "intCount", "intCount", "float", "double", "double", "bool"])
         return operand(k, level, right, variant=rng.randrange(6))
 
@@ -259,6 +321,10 @@ def random_expr(rng, level: str, d: int, allow_defect: bool = False, no_f32_inex
         c = rng.random()
         if c < 0.62:
             op = rng.choice(["Add", "Sub", "Mult", "Div", "Div", "Mod", "Pow"])
+            if op == "Pow" and rng.random() < 0.5:
+                # a negative integer exponent: a constant, or a negated integer value
+                ex = rng.choice([unop("USub", int_lit(1)), unop("USub", int_lit(2)), unop("USub", leaf(level, "i2"))])
+                return binop(op, go(d - 1, False), ex)
             return binop(op, go(d - 1, False), go(d - 1, True))
         if c < 0.8:
             return unop(rng.choice(["UAdd", "USub", "Not"]), go(d - 1, right))
@@ -269,6 +335,8 @@ def random_expr(rng, level: str, d: int, allow_defect: bool = False, no_f32_inex
 
 # ---------------------------------------------------------------------------------------------- sample values
 def f2bits(x: float) -> str:
+    if x == 0.0:
+        x = 0.0  # -0.0 and +0.0 are the same number (Python's ==): one representative, as in the driver
     return str(struct.unpack("<Q", struct.pack("<d", x))[0])
 
 
@@ -303,7 +371,8 @@ ROWS_NONNEG = [  # for '%': the quantifier of the property says non-negative ope
 
 
 def rows_for(form: Dict[str, Any]) -> List[Tuple]:
-    ops = set(ops_of(form))
+    # the columns of a row are evaluated on the same events: choose the rows by the operators of the whole row
+    ops = set(ops_of(form.get("_rowforms", form)))
     if "Pow" in ops:
         return ROWS_POW
     if "Mod" in ops:
@@ -315,7 +384,15 @@ def cell(i=0, d=0.0, b=False) -> Dict[str, Any]:
     return {"i": int(i), "d": f2bits(float(d)), "b": bool(b)}
 
 
-def env_from_row(row: Tuple, level: str, counts: Tuple[int, int] = (0, 0)) -> Dict[str, Any]:
+def jrows_for(rows: List[Tuple], k: int) -> List[Tuple]:
+    """the jets of bank "J" of the k-th event-level sample"""
+    # never empty: Python's Sum() of no jets is the int seed 0 whatever the accessor's type (dynamic typing), which
+    # the typed operand of the model does not represent; empty banks are exercised through Count() of J1/J2 and the
+    # aggregate forms
+    return [rows[(k + j) % len(rows)] for j in range(k % 3 + 1)]
+
+
+def env_from_row(row: Tuple, level: str, counts: Tuple[int, int] = (0, 0), jrows: Optional[List[Tuple]] = None) -> Dict[str, Any]:
     table = JET_LEAVES if level == "jet" else EVT_LEAVES
     env: Dict[str, Any] = {}
     for (name, _), v in zip(METHODS, row):
@@ -323,8 +400,14 @@ def env_from_row(row: Tuple, level: str, counts: Tuple[int, int] = (0, 0)) -> Di
         env[str(slot)] = cell(i=v if ty == "int" else 0, d=v if ty in ("float", "double") else 0.0, b=v if ty == "bool" else False)
     for x, slot in FLOAT_LITS.items():
         env[str(slot)] = cell(d=x)
-    env[str(CNT_SLOTS["J1"])] = cell(i=counts[0])
-    env[str(CNT_SLOTS["J2"])] = cell(i=counts[1])
+    env[str(CNT_SLOTS["J1"])] = cell(i=counts[0], d=counts[0])
+    env[str(CNT_SLOTS["J2"])] = cell(i=counts[1], d=counts[1])
+    jrows = jrows or []
+    env[str(CNT_SLOTS["J"])] = cell(i=len(jrows), d=len(jrows))
+    for k, slot in SUM_SLOTS.items():
+        col = [n for n, _ in METHODS].index(k)
+        tot = sum(r[col] for r in jrows)
+        env[str(slot)] = cell(i=int(tot), d=float(tot))
     return env
 
 
